@@ -129,6 +129,33 @@ def text_clause(ci: int, v: str, genTexts: bool, identity: bool) -> bool:
     return got == src or got == normalise(src)
 
 
+def filter_history(ci: int, first_identity: bool, first_texts: bool, genTexts: bool, backend: int) -> bool:
+    """
+    requires: 0 <= ci < len(CLAUSES) and 0 <= backend <= 1
+    """
+    # ONE code generator: a first call with its own textFilter / genTexts, then a call with the defaults. The second
+    # document must be the one a fresh generator produces ("exactly when layout is kept, whitespace-normalised otherwise"
+    # is a per-call matter)
+    from pysmi.codegen import jsondoc as _jd, pysnmp as _ps
+    tok.install_jinja_capture()
+    clause = pick(CLAUSES, ci)
+    d = _decl(clause, QS('"a  b\n c"'))
+    cls = (_jd.JsonCodeGen, _ps.PySnmpCodeGen)[backend]
+    try:
+        trees = tok.parse_tokens(m.module('M', [], [d]))
+        st = tok.compile_trees(trees, backend=None).symtab
+        g = cls()
+        kw = dict(genTexts=first_texts)
+        if first_identity:
+            kw['textFilter'] = lambda kind, text: text
+        g.genCode(trees[0], st, **kw)
+        mi1, again = g.genCode(trees[0], st, genTexts=genTexts)
+        mi2, fresh = cls().genCode(trees[0], st, genTexts=genTexts)
+    except error.PySmiError:
+        return False
+    return again == fresh
+
+
 def conditions(prop, tier):
     q = tier == 'quick'
     t = 280 if q else 1500
@@ -138,6 +165,10 @@ def conditions(prop, tier):
         out.append(dict(name='C15.json.%s' % c, fn='text_clause', fixed=dict(ci=ci), extra_pre=['len(v) <= %d' % n], timeout=t,
                         bounds='clause %s with ONE symbolic quoted string (len<=%d incl. the quotes, any character but "), genTexts and '
                                'filter (identity | default) symbolic' % (c, n)))
+    for be in (0, 1):
+        out.append(dict(name='C15.filter-history.%s' % ('pysnmp' if be else 'json'), fn='filter_history', fixed=dict(backend=be), timeout=t,
+                        bounds='one code generator, two calls: the first with an identity / default text filter and texts on / off, the second with '
+                               'the defaults, for every text-bearing clause: the second document equals a fresh generator\'s'))
     return out
 
 
